@@ -626,6 +626,10 @@ func h2Oracle(k *kernel.K, hw *h2World, focus string) {
 		return
 	}
 	for _, e := range []*H2End{cl, sv} {
+		if e.FirstFrameNotSettings != "" {
+			k.Fail("C08.conn_frames", map[string]string{"type": "first_frame_not_settings"}, "%s: the first frame received on the connection is %s; a connection preface starts with a SETTINGS frame (RFC 7540 section 3.5) - receivers treat anything else as a connection error (PROTOCOL_ERROR)", e.Name, e.FirstFrameNotSettings)
+			return
+		}
 		if e.RdErr != nil {
 			if strings.Contains(e.RdErr.Error(), "dynamic table size") {
 				k.Fail("C08.headers_fields", map[string]string{"stream_order": "table_size_not_honoured"}, "%s: %v", e.Name, e.RdErr)
